@@ -1,19 +1,1039 @@
 package prof
 
 import (
+	"encoding/hex"
+	"encoding/json"
+	"fmt"
+	"sort"
+	"strconv"
+	"strings"
+	"time"
+
+	sdkmath "cosmossdk.io/math"
+
+	transfertypes "github.com/cosmos/ibc-go/v11/modules/apps/transfer/types"
+	channeltypes "github.com/cosmos/ibc-go/v11/modules/core/04-channel/types"
+	ibctesting "github.com/cosmos/ibc-go/v11/testing"
+
 	"verif/ibcsim/sim"
 )
 
-// FwdInfo links the legs of a packet-forward (PFM) route. Filled in by the forwarding
-// extension of the token worlds.
+// ---- packet forwarding (C43) ---------------------------------------------------------------------
+//
+// A transfer whose memo reads {"forward":{"receiver","port","channel",["timeout"],["retries"],
+// ["next"]}} is taken by the packet-forward middleware of the receiving chain: it credits the coins
+// to a deterministic intermediate account, sends them on from that account inside the very receive
+// transaction and acknowledges the first leg only when the next leg has terminated.
+//
+// The model below is written from the property statement, not from the middleware:
+//
+//   - what the intermediate chain credits is plain ICS-20 (voucher of the prefixed path, or the
+//     coin released from the arrival channel's escrow when the packet unwinds);
+//   - what it sends on is exactly that coin, over the channel and to the receiver the memo names
+//     (burned when the coin returns over the channel it came from, escrowed otherwise);
+//   - when the forward fails for good at a later hop, the intermediate chain ends where it
+//     started: the model predicts the exact inverse of what it predicted for the hop;
+//   - a re-send after a timeout moves nothing;
+//   - whether a given timeout is answered by a re-send or by giving up is observed, not
+//     predicted (bounded by the number of retries the memo asked for).
+//
+// The legs the middleware sends have no MsgTransfer of their own: they are recognised by the
+// send_packet event of the receive (or timeout) transaction and become ordinary PktStates, so
+// that the generic relayer (honest, duplicating, replaying, racing) carries them.
+
+// FwdInfo links the legs of a packet-forward route.
 type FwdInfo struct {
 	Prev *PktState // leg that caused this one (nil for the origin leg)
-	Next *PktState
+	Next *PktState // newest leg sent on from this one's destination
+	Root *fwdRoot
+	Hop  int        // 0 = origin leg, k = leg sent by the k-th hop of the memo
+	Try  int        // 0 = first send of this hop, n = n-th re-send after a timeout
+	Led  *fwdLedger // set once this leg was received AND sent on: what its destination chain did
 }
 
-func (p *Core) genForwardMemo(ri, d int) string { return "" }
+// fwdRoot is one forwarded transfer as a whole.
+type fwdRoot struct {
+	Origin    *PktState
+	Plan      []fwdHop // hops the memo asks for; Plan[k-1] produces leg k
+	PlanOK    bool
+	Legs      []*PktState
+	Delivered *PktState // the leg whose receive credited the final receiver
+	Resends   map[int]int
+	judged    bool
+}
 
-func (p *Core) tokApplyForwardRecv(ci int, r *sim.TxResult, ps *PktState, ok bool) {}
+// fwdHop is one "forward" object of a memo.
+type fwdHop struct {
+	Receiver, Port, Channel string
+	Timeout                 time.Duration // 0 = not given
+	Retries                 int           // -1 = not given
+	HasNext                 bool
+}
 
-func (p *Core) tokRefundForwarded(ci int, ps *PktState, why string) {}
+// fwdLedger is what an intermediate chain did when it took a leg and sent it on.
+type fwdLedger struct {
+	Chain   int
+	Acct    string // the intermediate receive account
+	Denom   string // bank denomination credited and sent on
+	Path    string
+	Amount  sdkmath.Int
+	Unwound bool // arrival released the coins from the arrival channel's escrow (else: minted)
+	Burned  bool // departure burned them (else: escrowed under the departure channel)
+	InEsc   string
+	OutEsc  string
+	Undone  bool
+}
 
+// fwdWorld is the forwarding part of the world state (kept in World.Data).
+type fwdWorld struct {
+	roots    []*fwdRoot
+	inter    []map[string]bool        // per chain: intermediate receive accounts seen
+	denoms   []map[string]bool        // per chain: denominations moved by forwards
+	stuck    []map[string]sdkmath.Int // per chain: escrow|denom -> amount left behind (listed known finding only)
+	unbacked []map[string]sdkmath.Int // per chain: voucher denom -> supply left behind (listed known finding only)
+	tx       *sim.TxResult            // packet transaction being applied
+	genDenom string                   // generator hint only: bank denomination of the transfer being drawn
+}
+
+func (p *Core) fwd() *fwdWorld {
+	if fw, ok := p.w.Data.(*fwdWorld); ok {
+		return fw
+	}
+	fw := &fwdWorld{}
+	for range p.C {
+		fw.inter = append(fw.inter, map[string]bool{})
+		fw.denoms = append(fw.denoms, map[string]bool{})
+		fw.stuck = append(fw.stuck, map[string]sdkmath.Int{})
+		fw.unbacked = append(fw.unbacked, map[string]sdkmath.Int{})
+	}
+	p.w.Data = fw
+	return fw
+}
+
+func addInt(m map[string]sdkmath.Int, k string, x sdkmath.Int) {
+	cur, ok := m[k]
+	if !ok {
+		cur = sdkmath.ZeroInt()
+	}
+	m[k] = cur.Add(x)
+}
+
+func getInt(m map[string]sdkmath.Int, k string) sdkmath.Int {
+	if v, ok := m[k]; ok {
+		return v
+	}
+	return sdkmath.ZeroInt()
+}
+
+// ---- memo grammar (model side) ---------------------------------------------------------------
+
+func fwdIdentOK(s string, min, max int) bool {
+	if len(s) < min || len(s) > max {
+		return false
+	}
+	for _, c := range s {
+		switch {
+		case c >= 'a' && c <= 'z', c >= 'A' && c <= 'Z', c >= '0' && c <= '9':
+		case strings.ContainsRune("._+-#[]<>", c):
+		default:
+			return false
+		}
+	}
+	return true
+}
+
+// fwdParseMemo reads a packet-forward memo. isFwd: the memo is a JSON object whose "forward"
+// member is an object (the middleware's trigger); ok: every hop is well-formed.
+func fwdParseMemo(memo string) (isFwd bool, plan []fwdHop, ok bool) {
+	if memo == "" {
+		return false, nil, false
+	}
+	var m map[string]any
+	if json.Unmarshal([]byte(memo), &m) != nil {
+		return false, nil, false
+	}
+	f, isObj := m["forward"].(map[string]any)
+	if !isObj || f == nil {
+		return false, nil, false
+	}
+	plan, ok = fwdPlan(f, 0)
+	return true, plan, ok
+}
+
+func fwdPlan(f map[string]any, depth int) ([]fwdHop, bool) {
+	h := fwdHop{Retries: -1}
+	ok := true
+	var isStr bool
+	if h.Receiver, isStr = f["receiver"].(string); !isStr || h.Receiver == "" {
+		ok = false
+	}
+	if h.Port, isStr = f["port"].(string); !isStr || !fwdIdentOK(h.Port, 2, 128) {
+		ok = false
+	}
+	if h.Channel, isStr = f["channel"].(string); !isStr || !fwdIdentOK(h.Channel, 8, 64) {
+		ok = false
+	}
+	if t, has := f["timeout"]; has {
+		switch v := t.(type) {
+		case float64:
+			h.Timeout = time.Duration(v)
+		case string:
+			d, err := time.ParseDuration(v)
+			if err != nil {
+				ok = false
+			}
+			h.Timeout = d
+		default:
+			ok = false
+		}
+	}
+	if rv, has := f["retries"]; has {
+		fl, isNum := rv.(float64)
+		if !isNum || fl < 0 || fl > 255 {
+			ok = false
+		} else {
+			h.Retries = int(fl)
+		}
+	}
+	plan := []fwdHop{h}
+	nx, has := f["next"]
+	if !has {
+		return plan, ok
+	}
+	var nm map[string]any
+	switch v := nx.(type) {
+	case map[string]any:
+		nm = v
+	case string:
+		if json.Unmarshal([]byte(v), &nm) != nil {
+			return plan, false
+		}
+	default:
+		return plan, false
+	}
+	nf, isObj := nm["forward"].(map[string]any)
+	if !isObj || nf == nil || depth > 8 {
+		return plan, false
+	}
+	plan[0].HasNext = true
+	rest, rok := fwdPlan(nf, depth+1)
+	return append(plan, rest...), ok && rok
+}
+
+// ---- generator ---------------------------------------------------------------------------------
+
+type fwdEnd struct{ ri, e int }
+
+// fwdEnds lists the v1 transfer channel ends of chain ci in route order.
+func (p *Core) fwdEnds(ci int) []fwdEnd {
+	var out []fwdEnd
+	for i, rt := range p.Routes {
+		if !rt.Xfer || rt.V2 {
+			continue
+		}
+		for e := 0; e < 2; e++ {
+			if rt.Chain[e].Idx == ci {
+				out = append(out, fwdEnd{i, e})
+			}
+		}
+	}
+	return out
+}
+
+// genForwardMemo draws a packet-forward memo for a transfer over route ri in direction d: one to
+// three hops starting on the receiving chain, over any of its v1 transfer channels (also back
+// over the channel the transfer arrives on), with valid / invalid / blocked final receivers,
+// tight or default timeouts, 0..2 retries, and now and then a malformed hop.
+func (p *Core) genForwardMemo(ri, d int) string {
+	w := p.w
+	r := p.Routes[ri]
+	if r.V2 {
+		return ""
+	}
+	at := r.Chain[1-d].Idx
+	arrive := r.ID[1-d]
+	// the path the coin will carry on the chain that executes the next hop (model registry): lets
+	// the memo follow a voucher back along the way it came (unwinding hops that depart by burn)
+	hop := func(path, sp, sc, dp, dc string) string {
+		if strings.HasPrefix(path, sp+"/"+sc+"/") {
+			return strings.TrimPrefix(path, sp+"/"+sc+"/")
+		}
+		return dp + "/" + dc + "/" + path
+	}
+	pathAt := ""
+	if gd := p.fwd().genDenom; gd != "" {
+		pathAt = gd
+		if strings.HasPrefix(gd, "ibc/") {
+			pathAt = p.tok.vouchers[r.Chain[d].Idx][gd]
+		}
+		if pathAt != "" {
+			pathAt = hop(pathAt, r.Port[d], r.ID[d], r.Port[1-d], r.ID[1-d])
+		}
+	}
+	depth := 1 + w.Pick(58, 30, 12)
+	var hops []map[string]any
+	for k := 0; k < depth; k++ {
+		ends := p.fwdEnds(at)
+		if len(ends) == 0 {
+			break
+		}
+		en := ends[w.Intn(len(ends))]
+		home := -1
+		for i, x := range ends {
+			if pathAt != "" && p.Routes[x.ri].ID[x.e] != arrive && strings.HasPrefix(pathAt, p.Routes[x.ri].Port[x.e]+"/"+p.Routes[x.ri].ID[x.e]+"/") {
+				home = i
+			}
+		}
+		if home >= 0 && w.Chance(0.7) {
+			en = ends[home]
+		} else if w.Chance(0.55) {
+			// prefer to go on rather than straight back over the arrival channel
+			var onward []fwdEnd
+			for _, x := range ends {
+				if p.Routes[x.ri].ID[x.e] != arrive {
+					onward = append(onward, x)
+				}
+			}
+			if len(onward) > 0 {
+				en = onward[w.Intn(len(onward))]
+			}
+		}
+		rt := p.Routes[en.ri]
+		h := map[string]any{"port": rt.Port[en.e], "channel": rt.ID[en.e], "receiver": "pfm"}
+		switch w.Pick(38, 20, 10, 12, 20) {
+		case 1:
+			h["timeout"] = fmt.Sprintf("%ds", 1+w.Intn(20))
+		case 2:
+			h["timeout"] = int64(time.Second) * int64(1+w.Intn(30))
+		case 3:
+			h["timeout"] = "1h"
+		case 4:
+			h["timeout"] = "40h"
+		}
+		switch w.Pick(40, 20, 25, 15) {
+		case 1:
+			h["retries"] = 0
+		case 2:
+			h["retries"] = 1
+		case 3:
+			h["retries"] = 2
+		}
+		hops = append(hops, h)
+		if pathAt != "" {
+			pathAt = hop(pathAt, rt.Port[en.e], rt.ID[en.e], rt.Port[1-en.e], rt.ID[1-en.e])
+		}
+		at = rt.Chain[1-en.e].Idx
+		arrive = rt.ID[1-en.e]
+	}
+	if len(hops) == 0 {
+		return ""
+	}
+	// the final receiver lives on chain `at`
+	last := hops[len(hops)-1]
+	switch w.Pick(76, 12, 12) {
+	case 0:
+		last["receiver"] = p.C[at].Accounts[2+w.Intn(6)].Addr.String()
+	case 1:
+		last["receiver"] = "not-a-bech32-address"
+	default:
+		last["receiver"], _ = p.recvAddress(p.C[at], "blk")
+	}
+	for k := 0; k+1 < len(hops); k++ {
+		if w.Chance(0.4) {
+			// an ordinary account named on an intermediate hop must not be credited either
+			hops[k]["receiver"] = p.C[0].Accounts[2+w.Intn(6)].Addr.String()
+		}
+	}
+	if w.Intn(100) < 14 {
+		// a malformed or unroutable hop: the forward must fail there and the sender be refunded
+		h := hops[w.Intn(len(hops))]
+		switch w.Intn(9) {
+		case 0:
+			h["channel"] = "channel-77"
+		case 1:
+			h["channel"] = "x"
+		case 2:
+			h["port"] = "transferx"
+		case 3:
+			delete(h, "receiver")
+		case 4:
+			h["receiver"] = ""
+		case 5:
+			h["retries"] = 300
+		case 6:
+			h["timeout"] = "soon"
+		case 7:
+			h["next"] = "garbage"
+		case 8:
+			h["port"] = "p!"
+		}
+		w.Stats.Probe("forward_memo_malformed_or_unroutable_generated")
+	}
+	// nest from the last hop backwards
+	var inner any
+	for k := len(hops) - 1; k >= 0; k-- {
+		h := hops[k]
+		if inner != nil {
+			if _, broken := h["next"]; !broken {
+				h["next"] = inner
+			}
+		}
+		obj := map[string]any{"forward": h}
+		inner = obj
+		if k > 0 && w.Chance(0.2) {
+			bz, _ := json.Marshal(obj) // "next" may also be given as a JSON string
+			inner = string(bz)
+		}
+	}
+	bz, err := json.Marshal(inner)
+	if err != nil || strings.Contains(string(bz), ";") {
+		return ""
+	}
+	return string(bz)
+}
+
+// genForwardUnwind draws a transfer that sends a voucher of two or more hops back over the channel
+// it came from with a forward memo (the memo generator then tends to follow the voucher's path
+// home): hops that release the coin from escrow on arrival and burn it on departure.
+func (p *Core) genForwardUnwind() []sim.Op {
+	w := p.w
+	if len(p.Order) >= p.Opt.MaxPkts {
+		return nil
+	}
+	type cand struct {
+		ci, idx, ri, d int
+		denom          string
+	}
+	var cs []cand
+	for ci := range p.C {
+		for idx := 2; idx < 8 && idx < len(p.C[ci].Accounts); idx++ {
+			for _, dn := range p.heldDenoms(ci, idx) {
+				if !strings.HasPrefix(dn, "ibc/") {
+					continue
+				}
+				parts := strings.SplitN(p.tok.vouchers[ci][dn], "/", 3)
+				if len(parts) < 3 {
+					continue
+				}
+				ri, e := p.fwdRouteOf(ci, parts[0], parts[1])
+				if ri < 0 {
+					continue
+				}
+				// the rest of the path must lead on from the next chain over one of its channels
+				next := p.Routes[ri].Chain[1-e].Idx
+				for _, en := range p.fwdEnds(next) {
+					rt := p.Routes[en.ri]
+					if strings.HasPrefix(parts[2], rt.Port[en.e]+"/"+rt.ID[en.e]+"/") {
+						cs = append(cs, cand{ci, idx, ri, e, dn})
+						break
+					}
+				}
+			}
+		}
+	}
+	if len(cs) == 0 {
+		return nil
+	}
+	c := cs[w.Intn(len(cs))]
+	r := p.Routes[c.ri]
+	src, dst := r.Chain[c.d], r.Chain[1-c.d]
+	p.fwd().genDenom = c.denom
+	memo := p.genForwardMemo(c.ri, c.d)
+	if memo == "" {
+		return nil
+	}
+	bal := p.tok.bank[src.Idx].get(src.Accounts[c.idx].Addr.String(), c.denom)
+	amt := int64(1 + w.Intn(400))
+	if bal.IsInt64() && (bal.Int64() < amt || w.Chance(0.2)) {
+		amt = bal.Int64()
+	}
+	dstTime := p.chainTime(dst.Idx)
+	if dst.LastTime.After(dstTime) {
+		dstTime = dst.LastTime
+	}
+	var tmo string
+	switch {
+	case w.Intn(100) < p.Opt.TightTmo:
+		tmo = fmt.Sprintf("h%d", dst.Height+1+int64(w.Intn(4)))
+	case w.Chance(0.5):
+		tmo = fmt.Sprintf("h%d", dst.Height+500)
+	default:
+		tmo = fmt.Sprintf("t%d", dstTime.UnixNano()+int64(2*time.Hour))
+	}
+	op := sim.Op{K: "xfer", P: c.ri, X: int64(c.d), T: w.Tag(), C: c.idx, N: amt}
+	op.S = strings.Join([]string{c.denom, strconv.Itoa(2 + w.Intn(6)), tmo, memo}, ";")
+	w.Stats.Probe("forward_of_multi_hop_voucher_towards_home_generated")
+	return []sim.Op{op}
+}
+
+// ---- ghost model -----------------------------------------------------------------------------
+
+// fwdOriginSent marks a committed v1 transfer whose memo asks for a forward.
+func (p *Core) fwdOriginSent(ps *PktState) {
+	x := ps.X
+	if x == nil || x.Memo == "" {
+		return
+	}
+	isFwd, plan, ok := fwdParseMemo(x.Memo)
+	if !isFwd {
+		return
+	}
+	if ps.V2 {
+		// IBC v2 (and v2-over-alias) packets do not pass the v1 middleware: an ordinary transfer
+		p.w.Stats.Probe("forward_memo_on_v2_packet_is_an_ordinary_transfer")
+		return
+	}
+	fw := p.fwd()
+	root := &fwdRoot{Origin: ps, Plan: plan, PlanOK: ok, Resends: map[int]int{}}
+	root.Legs = append(root.Legs, ps)
+	x.Fwd = &FwdInfo{Root: root}
+	fw.roots = append(fw.roots, root)
+	p.tok.blockKinds["forward"] = true
+	p.w.Stats.Probe("forward_origin_sent")
+	p.w.Stats.NonTrivial(fmt.Sprintf("fwd:origin:hops=%d:wellformed=%v:%s:burn=%v", len(plan), ok, classifyDenom(x.SrcDenom), x.Burn))
+}
+
+// fwdNoteTx remembers the packet transaction whose effects are being applied (its events tell
+// which packets the middleware sent and which acknowledgements it wrote).
+func (p *Core) fwdNoteTx(r *sim.TxResult) {
+	if fw, ok := p.w.Data.(*fwdWorld); ok {
+		fw.tx = r
+	}
+}
+
+// fwdCredit: the denomination chain ci credits for packet ps per ICS-20 (model registry only).
+func (p *Core) fwdCredit(ci int, ps *PktState) (denom, path string, unwinding bool) {
+	x := ps.X
+	rt := p.Routes[ps.Route]
+	d := ps.Dir
+	if x.Burn {
+		rest := strings.TrimPrefix(x.Path, rt.Port[d]+"/"+rt.ID[d]+"/")
+		if p.tok.paths[ci][rest] {
+			return voucherOf(rest), rest, true
+		}
+		return rest, rest, true
+	}
+	full := rt.Port[1-d] + "/" + rt.ID[1-d] + "/" + x.Path
+	return voucherOf(full), full, false
+}
+
+func (p *Core) fwdRouteOf(ci int, port, ch string) (int, int) {
+	for i, rt := range p.Routes {
+		if !rt.Xfer || rt.V2 {
+			continue
+		}
+		for e := 0; e < 2; e++ {
+			if rt.Chain[e].Idx == ci && rt.Port[e] == port && rt.ID[e] == ch {
+				return i, e
+			}
+		}
+	}
+	return -1, 0
+}
+
+func (p *Core) fwdReceiverValid(c *sim.Chain, addr string) bool {
+	for _, a := range c.Accounts {
+		if a.Addr.String() == addr {
+			return true
+		}
+	}
+	return false
+}
+
+// fwdApplyLedger predicts what the hop did (sign +1) or its exact inverse (sign -1).
+func (p *Core) fwdApplyLedger(l *fwdLedger, sign int64) {
+	amt := l.Amount.MulRaw(sign)
+	pr := p.tok.pred[l.Chain]
+	if l.Unwound {
+		pr.add(l.InEsc, l.Denom, amt.Neg())
+		p.trackEscrow(l.Chain, l.Denom, amt.Neg())
+	} else {
+		pr.add(supplyKey, l.Denom, amt)
+	}
+	pr.add(l.Acct, l.Denom, amt) // credited to the intermediate account ...
+	pr.add(l.Acct, l.Denom, amt.Neg()) // ... and sent on from it in the same transaction
+	if l.Burned {
+		pr.add(supplyKey, l.Denom, amt.Neg())
+	} else {
+		pr.add(l.OutEsc, l.Denom, amt)
+		p.trackEscrow(l.Chain, l.Denom, amt)
+	}
+}
+
+func (l *fwdLedger) shape() string {
+	a, b := "mint", "escrow"
+	if l.Unwound {
+		a = "unescrow"
+	}
+	if l.Burned {
+		b = "burn"
+	}
+	return a + "+" + b
+}
+
+// fwdAckWritten finds, in the events of r, the acknowledgement written for leg ps from inside a
+// transaction of a later leg, and records it as the leg's (asynchronous) acknowledgement.
+func (p *Core) fwdAckWritten(r *sim.TxResult, ps *PktState) bool {
+	for _, ev := range sim.EventsOfType(r.Events, channeltypes.EventTypeWriteAck) {
+		if sim.Attr(ev, channeltypes.AttributeKeySequence) != strconv.FormatUint(ps.P1.Sequence, 10) ||
+			sim.Attr(ev, channeltypes.AttributeKeyDstChannel) != ps.P1.DestinationChannel ||
+			sim.Attr(ev, channeltypes.AttributeKeyDstPort) != ps.P1.DestinationPort {
+			continue
+		}
+		bz, err := hex.DecodeString(sim.Attr(ev, channeltypes.AttributeKeyAckHex))
+		if err != nil || len(bz) == 0 {
+			continue
+		}
+		ps.Ack1, ps.HasAck, ps.AsyncOpen = bz, true, false
+		ps.AckHeight = r.Height
+		delete(p.attempts, ps.Tag) // the honest relayer of the drain looks at this leg again
+		return true
+	}
+	return false
+}
+
+// fwdNewLeg turns the packet sent by the middleware inside transaction r on chain ci into a
+// PktState the generic relayer can carry. It returns nil when r sent no packet.
+func (p *Core) fwdNewLeg(ci int, r *sim.TxResult, prev *PktState, hop, try int, denom, path string) *PktState {
+	pk, err := ibctesting.ParseV1PacketFromEvents(r.Events)
+	if err != nil {
+		return nil
+	}
+	ri, e := p.fwdRouteOf(ci, pk.SourcePort, pk.SourceChannel)
+	if ri < 0 {
+		sim.Failf("forwarded packet left %s over %s/%s which is no v1 transfer route of the world", p.C[ci].ID, pk.SourcePort, pk.SourceChannel)
+	}
+	rt := p.Routes[ri]
+	var data transfertypes.FungibleTokenPacketData
+	if err := transfertypes.ModuleCdc.UnmarshalJSON(pk.Data, &data); err != nil {
+		sim.Failf("forwarded packet data: %v", err)
+	}
+	amt, okAmt := sdkmath.NewIntFromString(data.Amount)
+	if !okAmt {
+		amt = sdkmath.ZeroInt()
+	}
+	src, dst := rt.Chain[e], rt.Chain[1-e]
+	root := prev.X.Fwd.Root
+	nx := &XferInfo{SenderIdx: -1, Sender: data.Sender, Receiver: data.Receiver, RecvKind: "fwd", SrcDenom: denom, Path: path, Amount: amt,
+		Burn:  strings.HasPrefix(denom, "ibc/") && strings.HasPrefix(path, rt.Port[e]+"/"+rt.ID[e]+"/"),
+		Memo:  data.Memo, ExpectOK: p.fwdReceiverValid(dst, data.Receiver), Granter: -1,
+		Fwd: &FwdInfo{Prev: prev, Root: root, Hop: hop, Try: try}}
+	ps := &PktState{Route: ri, Dir: e, X: nx}
+	ps.Pkt = &sim.Pkt{Tag: root.Origin.Tag*1000000 + int64(len(root.Legs)), Src: src, Dst: dst, SrcCli: rt.Client[e], DstCli: rt.Client[1-e]}
+	ps.P1 = pk
+	ps.SentAt, ps.SentTm = r.Height, src.LastTime
+	if p.Pkts[ps.Tag] != nil {
+		sim.Failf("derived tag %d of a forwarded leg is taken", ps.Tag)
+	}
+	p.Pkts[ps.Tag] = ps
+	p.Order = append(p.Order, ps.Tag)
+	p.onSent(ps, r)
+	root.Legs = append(root.Legs, ps)
+	prev.X.Fwd.Next = ps
+	return ps
+}
+
+func (p *Core) fwdDescribe(root *fwdRoot) string {
+	o := root.Origin
+	return fmt.Sprintf("forward of %s %s by %s (%s, memo %s)", o.X.Amount, o.X.SrcDenom, p.nameOf(o.Src.Idx, o.X.Sender), o.Pkt, o.X.Memo)
+}
+
+// tokApplyForwardRecv: a packet of a forwarded transfer was received on chain ci (ok: a success
+// acknowledgement was written by the receive itself).
+func (p *Core) tokApplyForwardRecv(ci int, r *sim.TxResult, ps *PktState, ok bool) {
+	w := p.w
+	fw := p.fwd()
+	x := ps.X
+	fi := x.Fwd
+	root := fi.Root
+	rt := p.Routes[ps.Route]
+	p.tok.blockKinds["forward"] = true
+	denom, path, unwinding := p.fwdCredit(ci, ps)
+	inEsc := escrowAddr(rt.Port[1-ps.Dir], rt.ID[1-ps.Dir])
+	pr := p.tok.pred[ci]
+	isFwd, plan, planOK := fwdParseMemo(x.Memo)
+	if !isFwd {
+		// the last leg: a plain ICS-20 receive by the final receiver
+		if !ok {
+			w.Stats.Probe("forward_last_hop_error_ack")
+			return
+		}
+		x.RecvOK = true
+		fw.denoms[ci][denom] = true
+		if unwinding {
+			pr.add(inEsc, denom, x.Amount.Neg())
+			pr.add(x.Receiver, denom, x.Amount)
+			p.trackEscrow(ci, denom, x.Amount.Neg())
+		} else {
+			p.tok.vouchers[ci][denom] = path
+			p.tok.paths[ci][path] = true
+			pr.add(supplyKey, denom, x.Amount)
+			pr.add(x.Receiver, denom, x.Amount)
+		}
+		if root.Delivered != nil {
+			w.Violate("C43", "delivered-twice", "", fmt.Sprintf("%s: the final receiver was credited by %s and again by %s", p.fwdDescribe(root), root.Delivered.Pkt, ps.Pkt))
+		}
+		root.Delivered = ps
+		w.Stats.Probe("forward_delivered_to_final_receiver")
+		if len(root.Legs) >= 3 && fi.Hop >= 2 {
+			w.Stats.Probe("forward_delivered_over_three_or_more_legs")
+		}
+		if fi.Try > 0 {
+			w.Stats.Probe("forward_delivered_by_a_retried_leg")
+		}
+		w.Stats.NonTrivial(fmt.Sprintf("fwd:delivered:legs=%d:unwound=%v:%s", fi.Hop+1, unwinding, classifyDenom(baseOfPath(path))))
+		p.fwdJudge(root, false)
+		return
+	}
+	// an intermediate hop
+	hop := plan[0]
+	if ps.HasAck {
+		if ok {
+			w.Violate("C43", "forward-acknowledged-without-forwarding", "", fmt.Sprintf("%s: %s carries a forward memo and was answered with a success acknowledgement by the receive itself: nothing was sent on", p.fwdDescribe(root), ps.Pkt))
+			return
+		}
+		why := "other"
+		if !planOK {
+			why = "malformed-memo"
+		} else if i, _ := p.fwdRouteOf(ci, hop.Port, hop.Channel); i < 0 {
+			why = "unroutable"
+		}
+		w.Stats.Probe("forward_refused_at_intermediate_hop")
+		w.Stats.NonTrivial(fmt.Sprintf("fwd:refused-at-hop:%s:hop=%d", why, fi.Hop+1))
+		return
+	}
+	// no acknowledgement: the middleware took the packet and must have sent it on
+	led := &fwdLedger{Chain: ci, Denom: denom, Path: path, Amount: x.Amount, Unwound: unwinding, InEsc: inEsc}
+	nps := p.fwdNewLeg(ci, r, ps, fi.Hop+1, 0, denom, path)
+	if nps == nil {
+		w.Violate("C43", "forward-taken-without-next-leg", "", fmt.Sprintf("%s: %s was received without an acknowledgement and without a packet being sent on: the coins are stuck on %s", p.fwdDescribe(root), ps.Pkt, p.C[ci].ID))
+		return
+	}
+	nrt := p.Routes[nps.Route]
+	led.Acct = nps.X.Sender
+	led.Burned = nps.X.Burn
+	led.OutEsc = escrowAddr(nrt.Port[nps.Dir], nrt.ID[nps.Dir])
+	if !unwinding {
+		p.tok.vouchers[ci][denom] = path
+		p.tok.paths[ci][path] = true
+	}
+	x.RecvOK = true
+	fi.Led = led
+	fw.inter[ci][led.Acct] = true
+	fw.denoms[ci][denom] = true
+	p.fwdApplyLedger(led, +1)
+	// (5) the coin sent on is the coin ICS-20 credited here, all of it, to where the memo says
+	var data transfertypes.FungibleTokenPacketData
+	_ = transfertypes.ModuleCdc.UnmarshalJSON(nps.P1.Data, &data)
+	if got := p.packetDenom(nps); got != path {
+		w.Violate("C43", "forwarded-denomination-differs", "", fmt.Sprintf("%s: %s credited %s (path %q) on %s, but the next leg %s carries denomination %q", p.fwdDescribe(root), ps.Pkt, denom, path, p.C[ci].ID, nps.Pkt, got))
+	}
+	if !nps.X.Amount.Equal(x.Amount) {
+		w.Violate("C43", "forwarded-amount-differs", "", fmt.Sprintf("%s: %s delivered %s to %s, the next leg %s carries %s", p.fwdDescribe(root), ps.Pkt, x.Amount, p.C[ci].ID, nps.Pkt, data.Amount))
+	}
+	if planOK && (nps.P1.SourcePort != hop.Port || nps.P1.SourceChannel != hop.Channel || data.Receiver != hop.Receiver) {
+		w.Violate("C43", "forward-route-differs", "", fmt.Sprintf("%s: the memo of %s asks for %s/%s to %q, the next leg %s goes to %q", p.fwdDescribe(root), ps.Pkt, hop.Port, hop.Channel, hop.Receiver, nps.Pkt, data.Receiver))
+	}
+	if nextFwd, _, _ := fwdParseMemo(data.Memo); planOK && nextFwd != hop.HasNext {
+		w.Violate("C43", "forward-route-differs", "", fmt.Sprintf("%s: the memo of %s has next=%v, the next leg %s carries memo %q", p.fwdDescribe(root), ps.Pkt, hop.HasNext, nps.Pkt, data.Memo))
+	}
+	if p.fwdReceiverValid(p.C[ci], led.Acct) || p.nameOf(ci, led.Acct) != led.Acct {
+		w.Violate("C43", "intermediate-account-is-a-real-account", "", fmt.Sprintf("%s: the hop on %s ran through %s, which is a user, relayer or escrow account", p.fwdDescribe(root), p.C[ci].ID, p.nameOf(ci, led.Acct)))
+	}
+	w.Stats.Probe("forward_hop_executed")
+	if unwinding {
+		w.Stats.Probe("forward_hop_unwinding")
+	} else {
+		w.Stats.Probe("forward_hop_minting")
+	}
+	if led.Burned {
+		w.Stats.Probe("forward_hop_departs_by_burn")
+	} else {
+		w.Stats.Probe("forward_hop_departs_by_escrow")
+	}
+	if fi.Hop >= 1 {
+		w.Stats.Probe("forward_second_hop_executed")
+	}
+	w.Stats.NonTrivial(fmt.Sprintf("fwd:hop:%s:hop=%d:%s", led.shape(), fi.Hop+1, classifyDenom(baseOfPath(path))))
+}
+
+// tokForwardSettled: leg ps was acknowledged successfully on its source chain ci.
+func (p *Core) tokForwardSettled(ci int, r *sim.TxResult, ps *PktState) {
+	x := ps.X
+	if x == nil || x.Fwd == nil {
+		return
+	}
+	w := p.w
+	p.tok.blockKinds["forward"] = true
+	root := x.Fwd.Root
+	if x.Fwd.Prev == nil {
+		w.Stats.Probe("forward_origin_acknowledged_success")
+		p.fwdJudge(root, false)
+		return
+	}
+	// the hop that sent this leg passes the success on to the leg before
+	if p.fwdAckWritten(r, x.Fwd.Prev) {
+		w.Stats.Probe("forward_success_passed_to_previous_hop")
+	} else {
+		w.Stats.Probe("forward_success_not_passed_to_previous_hop")
+	}
+}
+
+// tokRefundForwarded: leg ps (sent by an intermediate hop on chain ci) failed there: error
+// acknowledgement or timeout.
+func (p *Core) tokRefundForwarded(ci int, ps *PktState, why string) {
+	w := p.w
+	fw := p.fwd()
+	x := ps.X
+	fi := x.Fwd
+	root := fi.Root
+	prev := fi.Prev
+	p.tok.blockKinds["forward"] = true
+	if x.Refunded || x.Settled {
+		w.Violate("C43", "second-terminal-outcome-processed", "", fmt.Sprintf("%s: a second %s was processed for leg %s", p.fwdDescribe(root), why, ps.Pkt))
+		return
+	}
+	r := fw.tx
+	led := prev.X.Fwd.Led
+	if r == nil || led == nil || led.Undone {
+		sim.Failf("forwarded leg %s failed on chain %d without a live hop record", ps.Pkt, ci)
+	}
+	x.Refunded = true
+	if why == "tmo" {
+		if nps := p.fwdNewLeg(ci, r, prev, fi.Hop, fi.Try+1, led.Denom, led.Path); nps != nil {
+			// re-sent after the timeout: refunded to the intermediate account and sent on again
+			// within one transaction; nothing moves on balance
+			root.Resends[fi.Hop]++
+			var od, nd transfertypes.FungibleTokenPacketData
+			_ = transfertypes.ModuleCdc.UnmarshalJSON(ps.P1.Data, &od)
+			_ = transfertypes.ModuleCdc.UnmarshalJSON(nps.P1.Data, &nd)
+			_, oplan, _ := fwdParseMemo(od.Memo)
+			_, nplan, _ := fwdParseMemo(nd.Memo)
+			if nd.Denom != od.Denom || nd.Amount != od.Amount || nd.Receiver != od.Receiver || nd.Sender != od.Sender || fmt.Sprint(oplan) != fmt.Sprint(nplan) ||
+				nps.P1.SourceChannel != ps.P1.SourceChannel || nps.P1.SourcePort != ps.P1.SourcePort {
+				w.Violate("C43", "retried-leg-differs", "", fmt.Sprintf("%s: leg %s timed out and was re-sent as %s with different contents: %s vs %s", p.fwdDescribe(root), ps.Pkt, nps.Pkt, ps.P1.Data, nps.P1.Data))
+			}
+			if asked := root.hopRetries(fi.Hop); asked >= 0 && root.Resends[fi.Hop] > asked {
+				w.Violate("C43", "more-retries-than-requested", "", fmt.Sprintf("%s: hop %d was re-sent %d times although the memo asks for %d retries", p.fwdDescribe(root), fi.Hop, root.Resends[fi.Hop], asked))
+			}
+			w.Stats.Probe("forward_retried_after_timeout")
+			w.Stats.NonTrivial(fmt.Sprintf("fwd:retry:%d:hop=%d:%s", min64(int64(fi.Try+1), 3), fi.Hop, led.shape()))
+			return
+		}
+	}
+	// the forward failed for good at or beyond this hop: this chain ends where it started (4)
+	p.fwdApplyLedger(led, -1)
+	led.Undone = true
+	prev.X.RecvOK = false
+	if !led.Unwound && led.Burned {
+		p.fwdSameChannelFailure(ci, r, ps, led)
+	}
+	if p.fwdAckWritten(r, prev) {
+		if ackIsSuccess(prev) {
+			w.Stats.Probe("forward_failure_passed_on_as_success")
+		} else {
+			w.Stats.Probe("forward_failure_passed_to_previous_hop")
+		}
+	} else {
+		w.Stats.Probe("forward_failure_not_passed_to_previous_hop")
+	}
+	switch why {
+	case "error-ack":
+		w.Stats.Probe("forward_failed_error_ack")
+	default:
+		w.Stats.Probe("forward_failed_timeout_gave_up")
+		if fi.Try > 0 {
+			w.Stats.Probe("forward_gave_up_after_retries")
+		}
+	}
+	switch led.shape() {
+	case "unescrow+escrow":
+		w.Stats.Probe("forward_undone_by_moving_between_escrows")
+	case "mint+escrow":
+		w.Stats.Probe("forward_undone_by_burning_from_escrow")
+	case "unescrow+burn":
+		w.Stats.Probe("forward_undone_by_minting_to_escrow")
+	case "mint+burn":
+		w.Stats.Probe("forward_undone_nothing_to_move")
+	}
+	if fi.Hop >= 2 {
+		w.Stats.Probe("forward_failure_unwinds_two_hops")
+	}
+	w.Stats.NonTrivial(fmt.Sprintf("fwd:failed:%s:hop=%d:try=%d:%s", why, fi.Hop, min64(int64(fi.Try), 3), led.shape()))
+}
+
+// hopRetries: the number of retries the memo asks for on the hop that sends leg `leg` (-1 = not given).
+func (root *fwdRoot) hopRetries(leg int) int {
+	if !root.PlanOK || leg < 1 || leg > len(root.Plan) {
+		return -1
+	}
+	return root.Plan[leg-1].Retries
+}
+
+// fwdSameChannelFailure: a hop minted a voucher and burned it again because the memo sent the coin
+// straight back over the channel it arrived on; the forward then failed. "Where it started" means
+// that nothing is left on this chain. Ground truth at transaction granularity: the bank module's
+// coinbase event of the failing transaction.
+func (p *Core) fwdSameChannelFailure(ci int, r *sim.TxResult, ps *PktState, led *fwdLedger) {
+	w := p.w
+	fw := p.fwd()
+	want := led.Amount.String() + led.Denom
+	minted := false
+	for _, ev := range sim.EventsOfType(r.Events, "coinbase") {
+		if sim.Attr(ev, "amount") == want {
+			minted = true
+		}
+	}
+	w.Stats.Probe("forward_failed_after_return_over_arrival_channel")
+	if !minted {
+		return
+	}
+	root := ps.X.Fwd.Root
+	detail := fmt.Sprintf("%s: the hop on %s minted %s %s on arrival and burned it to send it back over the arrival channel; when that leg %s failed, %s %s were minted into %s and counted as escrowed, although the original sender is refunded on the origin chain: the voucher supply and the escrow of %s do not end where they started",
+		p.fwdDescribe(root), p.C[ci].ID, led.Amount, led.Denom, ps.Pkt, led.Amount, led.Denom, p.nameOf(ci, led.InEsc), p.C[ci].ID)
+	if w.Violate("C43", "failed-forward-leaves-minted-vouchers", "failed-forward-mints-into-escrow:returned-over-arrival-channel", detail) {
+		return
+	}
+	// listed known finding: follow the implementation so that its consequences are not reported again
+	pr := p.tok.pred[ci]
+	pr.add(supplyKey, led.Denom, led.Amount)
+	pr.add(led.InEsc, led.Denom, led.Amount)
+	p.trackEscrow(ci, led.Denom, led.Amount)
+	addInt(fw.stuck[ci], led.InEsc+"|"+led.Denom, led.Amount)
+	addInt(fw.unbacked[ci], led.Denom, led.Amount)
+}
+
+// fwdJudge (2): all-or-nothing. final: the drain is over.
+func (p *Core) fwdJudge(root *fwdRoot, final bool) {
+	w := p.w
+	o := root.Origin
+	delivered := root.Delivered != nil
+	switch {
+	case delivered && o.X.Refunded:
+		w.Violate("C43", "delivered-and-refunded", "", fmt.Sprintf("%s: the final receiver was credited by %s AND the original sender was refunded", p.fwdDescribe(root), root.Delivered.Pkt))
+	case o.X.Settled && !delivered:
+		w.Violate("C43", "acknowledged-without-delivery", "", fmt.Sprintf("%s: the origin leg was acknowledged with success although no leg ever credited the final receiver; the sender is not refunded", p.fwdDescribe(root)))
+	case final && !delivered && !o.X.Refunded:
+		w.Violate("C43", "neither-delivered-nor-refunded", "", fmt.Sprintf("%s: after the drain the final receiver has not been credited and the original sender has not been refunded (%s)", p.fwdDescribe(root), p.fwdLegStates(root)))
+	}
+	if final {
+		for _, ps := range root.Legs {
+			if ps.Done == "" && !p.stuckLegit(ps) {
+				w.Violate("C43", "forward-never-terminated", "", fmt.Sprintf("%s: leg %s never reached a terminal state although an honest relayer kept relaying after faults stopped (%s)", p.fwdDescribe(root), ps.Pkt, p.fwdLegStates(root)))
+				break
+			}
+		}
+		w.Stats.Probe("forward_all_or_nothing_judged")
+		if delivered {
+			w.Stats.NonTrivial(fmt.Sprintf("fwd:outcome:delivered:legs=%d", len(root.Legs)))
+		} else {
+			w.Stats.NonTrivial(fmt.Sprintf("fwd:outcome:refunded:legs=%d", len(root.Legs)))
+			if len(root.Legs) > 1 {
+				w.Stats.Probe("forward_origin_refunded_after_forwarding_began")
+			}
+		}
+	}
+}
+
+func (p *Core) fwdLegStates(root *fwdRoot) string {
+	var out []string
+	for _, ps := range root.Legs {
+		st := ps.Done
+		if st == "" {
+			st = fmt.Sprintf("open,received=%v,ack=%v", ps.RecvHeight > 0, ps.HasAck)
+		}
+		out = append(out, fmt.Sprintf("%s[%s]%s", ps.Pkt, st, p.lastRefusal[ps.Tag]))
+	}
+	return strings.Join(out, "; ")
+}
+
+// fwdAfterBlock: per-block oracles of the forwarding worlds.
+func (p *Core) fwdAfterBlock(ci int, now amap) {
+	fw, ok := p.w.Data.(*fwdWorld)
+	if !ok || len(fw.roots) == 0 || !p.w.Armed("C43") {
+		return
+	}
+	w := p.w
+	c := p.C[ci]
+	// (3) the intermediate receive accounts never keep funds
+	for _, a := range sim.SortedKeys(fw.inter[ci]) {
+		for _, d := range sim.SortedKeys(now[a]) {
+			if !now.get(a, d).IsZero() {
+				w.Violate("C43", "intermediate-account-keeps-funds", "", fmt.Sprintf("block %d of %s: the intermediate receive account %s holds %s %s", c.Height, c.ID, a, now.get(a, d), d))
+			}
+		}
+	}
+	w.Stats.Probe("intermediate_accounts_checked_empty")
+	// (4) tracked total escrow of every denomination a forward touched = ledger of escrows minus releases
+	for _, d := range sim.SortedKeys(fw.denoms[ci]) {
+		got := c.App.TransferKeeper.GetTotalEscrowForDenom(c.QueryCtx(), d).Amount
+		want := getInt(p.tok.tracked[ci], d)
+		if !got.Equal(want) {
+			w.Violate("C43", "tracked-escrow-differs", "", fmt.Sprintf("%s: tracked total escrow of %s is %s, the ledger of escrows minus releases (forwards and their undoing included) is %s", c.ID, d, got, want))
+		}
+	}
+	p.fwdChannelEquations()
+}
+
+// fwdChannelEquations (1): for every transfer channel end and every denomination in its escrow:
+// escrow = voucher supply on the peer + amounts in flight in either direction. Legs sent by
+// intermediate hops count like any transfer; a leg whose hop was undone counts as not received.
+func (p *Core) fwdChannelEquations() {
+	w := p.w
+	t := &p.tok
+	fw := p.fwd()
+	for ri, rt := range p.Routes {
+		if !rt.Xfer {
+			continue
+		}
+		for e := 0; e < 2; e++ {
+			x, y := rt.Chain[e].Idx, rt.Chain[1-e].Idx
+			esc := escrowAddr(rt.Port[e], rt.ID[e])
+			for _, d := range sim.SortedKeys(t.bank[x][esc]) {
+				path := d
+				if strings.HasPrefix(d, "ibc/") {
+					pth, ok := t.vouchers[x][d]
+					if !ok {
+						continue
+					}
+					path = pth
+				}
+				v := voucherOf(rt.Port[1-e] + "/" + rt.ID[1-e] + "/" + path)
+				held := t.bank[x].get(esc, d).Sub(t.donated[x].get(esc, d)).Sub(getInt(fw.stuck[x], esc+"|"+d))
+				supply := t.bank[y].get(supplyKey, v).Sub(getInt(fw.unbacked[y], v))
+				inflight := sdkmath.ZeroInt()
+				for _, tag := range p.Order {
+					ps := p.Pkts[tag]
+					if ps == nil || ps.X == nil || ps.Route != ri || ps.X.RecvOK || ps.X.Refunded {
+						continue
+					}
+					if ps.Dir == e && !ps.X.Burn && ps.X.SrcDenom == d {
+						inflight = inflight.Add(ps.X.Amount)
+					}
+					if ps.Dir == 1-e && ps.X.Burn && ps.X.SrcDenom == v {
+						inflight = inflight.Add(ps.X.Amount)
+					}
+				}
+				if !held.Equal(supply.Add(inflight)) {
+					w.Violate("C43", "channel-equation-broken", "", fmt.Sprintf("channel %s/%s of %s, denomination %s: escrow holds %s but %s circulate as %s on %s and %s are in flight", rt.Port[e], rt.ID[e], rt.Chain[e].ID, d, held, supply, v, rt.Chain[1-e].ID, inflight))
+					return
+				}
+			}
+		}
+	}
+	w.Stats.Probe("forward_channel_equations_checked")
+}
+
+// fwdFinish (2): after the drain every forwarded transfer has either reached its final receiver
+// or been refunded to its original sender.
+func (p *Core) fwdFinish() {
+	fw, ok := p.w.Data.(*fwdWorld)
+	if !ok || !p.w.Armed("C43") {
+		return
+	}
+	for _, root := range fw.roots {
+		p.fwdJudge(root, true)
+	}
+}
+
+var _ = sort.Strings
